@@ -46,6 +46,24 @@ def _shape_env(s, **kw):
     return env
 
 
+def _splits(s):
+    """Case split of the present flags for the heavy shapes (4 registered nodes): the first two flags concrete."""
+    if sum(1 for r in s.registered if r) >= 4:
+        return ["00??", "01??", "10??", "11??"]
+    return [None]
+
+
+def _senv(s, split, **kw):
+    env = _shape_env(s, **kw)
+    if split:
+        env["XH_PRESENT"] = split
+    return env
+
+
+def _sfx(split):
+    return f"_P{split.replace('?', 'x')}" if split else ""
+
+
 def _py(code, timeout=300):
     env = dict(os.environ, VERIF_SRC=C.SRC, PYTHONHASHSEED="0")
     env["PYTHONPATH"] = os.pathsep.join([xhrun.XHDIR, C.VERIF])
@@ -102,8 +120,9 @@ def conds_c13(tier):
     # B. failure in the stale check at a symbolic operation index
     for s in cat:
         for dry in ("0", "1"):
-            cs.append(xhrun.Cond(MOD, "c13_run_reg", _shape_env(s, XH_DRY=dry, XH_CUTMODE="stale"),
-                                 timeout=240, label=f"c13_stalefail_{s.name}_dry{dry}"))
+            for sp in _splits(s):
+                cs.append(xhrun.Cond(MOD, "c13_run_reg", _senv(s, sp, XH_DRY=dry, XH_CUTMODE="stale"),
+                                     timeout=240, label=f"c13_stalefail_{s.name}_dry{dry}{_sfx(sp)}"))
     # C. failure in the run phase: case split over the operation index
     names = ["chain_sss", "fork_unstored_mid"] if tier == "quick" else [s.name for s in cat]
     for nm in names:
@@ -139,19 +158,22 @@ def conds_c14(tier):
 
     cat = shapes.QUICK if tier == "quick" else shapes.THOROUGH
     cs = []
+    rich = ("chain_sss", "fork_unstored_mid", "dep_source")
     for s in cat:
         variants = [("shape", "0")]
         if tier == "thorough" or s.name in ("chain_sss", "fork_unstored_mid", "dep_edge"):
             variants.append(("shape", "1"))
-        if tier == "thorough" or s.name in ("chain_sss", "out_unstored"):
+        if s.name in ("chain_sss", "out_unstored") or (tier == "thorough" and s.name in rich + ("dep_edge",)):
             variants.append(("struct", "0"))
         if tier == "thorough":
-            variants.append(("struct", "1"))
             if s.out is not None:
-                variants += [("none", "0"), ("none", "1")]
+                variants.append(("none", "0"))
+            if s.name in rich:
+                variants += [("struct", "1"), ("none", "1")]
         for o, tp in variants:
-            cs.append(xhrun.Cond(MOD, "c14_dry", _shape_env(s, XH_OUT=o, XH_TP=tp), timeout=300,
-                                 label=f"c14_dry_{s.name}_out-{o}_tp{tp}"))
+            for sp in _splits(s):
+                cs.append(xhrun.Cond(MOD, "c14_dry", _senv(s, sp, XH_OUT=o, XH_TP=tp), timeout=300,
+                                     label=f"c14_dry_{s.name}_out-{o}_tp{tp}{_sfx(sp)}"))
         cs.append(xhrun.Cond(MOD, "c14_noreg", _shape_env(s), timeout=240, label=f"c14_noreg_{s.name}"))
     return cs
 
